@@ -166,7 +166,7 @@ func TestC05Decoders(t *testing.T) {
 		b.Sig("corpus")
 		b.Sig(fmt.Sprint(len(seeds)))
 	})
-	nb := c.N(100, 6000)
+	nb := c.N(400, 12000)
 	for k := 0; k < nb; k++ {
 		batch("mixed", k, map[string]any{"batch": k}, func(b *B) {
 			r := c.Rand("c05mixed", k)
